@@ -994,12 +994,16 @@ func (p *Policy) validURL(rawurl string) (string, bool) {
 			return "", false
 		}
 
+		// String() drops an empty fragment, which can leave the white space
+		// that stood in front of it at the end of the URL
+		normalised := strings.TrimSpace(u.String())
+
 		if u.Scheme != "" {
 			urlPolicies, ok := p.allowURLSchemes[u.Scheme]
 			if !ok {
 				for _, r := range p.allowURLSchemeRegexps {
 					if r.MatchString(u.Scheme) {
-						return u.String(), true
+						return normalised, true
 					}
 				}
 
@@ -1007,12 +1011,12 @@ func (p *Policy) validURL(rawurl string) (string, bool) {
 			}
 
 			if len(urlPolicies) == 0 {
-				return u.String(), true
+				return normalised, true
 			}
 
 			for _, urlPolicy := range urlPolicies {
 				if urlPolicy(u) {
-					return u.String(), true
+					return normalised, true
 				}
 			}
 
@@ -1020,8 +1024,8 @@ func (p *Policy) validURL(rawurl string) (string, bool) {
 		}
 
 		if p.allowRelativeURLs {
-			if u.String() != "" {
-				return u.String(), true
+			if normalised != "" {
+				return normalised, true
 			}
 		}
 
